@@ -113,7 +113,8 @@ broadcast use stub::http_date_whole_second;
 //@fn src/serving.rs :: fn truncate_to_second props=C04,C14 implicit=C13
 fn truncate_to_second(t: SystemTime) -> (r: SystemTime)
     requires t.nanos < 1_000_000_000,
-    ensures /*@C04,C14 #truncates_to_whole_second*/ r.secs == t.secs && r.nanos == 0,
+    ensures /*@C04,C14 #truncates_to_whole_second*/ t.secs >= 0 ==> (r.secs == t.secs && r.nanos == 0),
+            /*@C04 #pre_epoch_time_unchanged*/ t.secs < 0 ==> r == t,
 //@body
 //@end
 
